@@ -722,7 +722,8 @@ pub fn generate_code(context: &Context) -> Result<u32, &'static str>
             {
                 info!("[ref: 17] Using cached next reference ID");
 
-                id
+                // Reference IDs start at START_REFERENCE_ID, whatever the lock file says
+                id.max(START_REFERENCE_ID)
             },
             None =>
             {
